@@ -235,6 +235,48 @@ func randInstant(rng *rand.Rand, sp [][2]int64) (int64, int64) {
 
 var amountPool = []int64{0, 1, -1, 2, 7, 59, 60, 61, 1000, -1000, 86400, 1000000, -1000000, 999999, 106751, 106752, -106752, 15250, 15251, 500000, -3, 365, 366, 146097, 52}
 
+// the very ends of the years 1..9999
+const (
+	year1Sec    = -62135596800 // 0001-01-01T00:00:00Z
+	year9999Sec = 253402300799 // 9999-12-31T23:59:59Z
+)
+
+type fixedDate struct {
+	sec, ns, n int64
+	unit       int
+}
+
+// fixedDates: the cases DATE_DIFF must get exactly right whatever the random
+// draw is: amounts of +-10^6 (and one less) of every unit from the first and
+// the last instant of the years 1..9999 and from the epoch; day and week
+// amounts around and far beyond the 292.47 years a time.Duration can hold
+// (106751 days, 15250 weeks), up to spans of almost the whole range; and
+// millisecond amounts whose sub-second parts need a borrow from the seconds
+// (the later instant has the smaller nanosecond field).
+func fixedDates() []fixedDate {
+	var r []fixedDate
+	ends := [][2]int64{{year1Sec, 999999999}, {year9999Sec, 1}, {0, 0}}
+	for u := 0; u < 6; u++ {
+		for _, n := range []int64{1000000, -1000000, 999999, -999999} {
+			for _, e := range ends {
+				r = append(r, fixedDate{e[0], e[1], n, u})
+			}
+		}
+	}
+	for _, n := range []int64{106751, 106752, -106751, -106752, 213504, 500000, -500000, 730119, 146097 * 6} {
+		r = append(r, fixedDate{year1Sec, 0, n, 4}, fixedDate{year9999Sec, 999999999, -n, 4}, fixedDate{951825600, 123456789, n, 4})
+	}
+	for _, n := range []int64{15250, 15251, -15250, -15251, 30502, 104303, 500000, -500000, 521722, -521722} {
+		r = append(r, fixedDate{year1Sec, 0, n, 5}, fixedDate{year9999Sec, 999999999, -n, 5}, fixedDate{951825600, 123456789, n, 5})
+	}
+	// later.Nanosecond() < earlier.Nanosecond(): borrow across the second
+	for _, c := range [][2]int64{{999999999, 1}, {999000000, 1}, {0, -1}, {1, -1}, {500000000, 500}, {500000000, -501}, {123456789, 999},
+		{123456789, -124}, {999999999, 1000000}, {0, -1000000}, {10, -999999}, {999000000, 999999}, {999999, -1}, {1000000, -2}, {999000001, 1999}} {
+		r = append(r, fixedDate{year1Sec, c[0], c[1], 0}, fixedDate{year9999Sec, c[0], c[1], 0}, fixedDate{1709251199, c[0], c[1], 0})
+	}
+	return r
+}
+
 func mkTime(sec, ns int64, offMin int) time.Time {
 	t := time.Unix(sec, ns).UTC()
 	if offMin != 0 {
@@ -348,7 +390,7 @@ func runC17(out, tier string, seed int64) {
 	_ = splitN
 	_ = driftN
 	m := NewMeta("C17", tier, seed)
-	m.Rule = "cases = adversarial string pool + seeded random strings (fragments: quotes, backslashes, %, &, entities, separators, non-ASCII letters with case, Unicode spaces, astral runes, invalid UTF-8) x {base64, URI, HTML, UPPER, LOWER, SPLIT/CONCAT_SEPARATOR x separators, TRIM/LTRIM/RTRIM x cutsets}; JSON-domain values; dates in years 1..9999 (leap days, month ends, sub-second parts, zones) x amounts in [-10^6,10^6] x units ms,s,min,h,d,w; RFC 3339 renderings. One evaluation = one round trip / double application through a compiled query. Non-trivial = the first function changed its input (encoders, case, trim), the split produced >= 2 pieces, the amount is non-zero, the JSON value is not a scalar, the instant has a sub-second part or a zone; distinct = distinct (pair, input) texts"
+	m.Rule = "cases = adversarial string pool + seeded random strings (fragments: quotes, backslashes, %, &, entities, separators, non-ASCII letters with case, Unicode spaces, astral runes, invalid UTF-8) x {base64, URI, HTML, UPPER, LOWER, SPLIT/CONCAT_SEPARATOR x separators, TRIM/LTRIM/RTRIM x cutsets}; JSON-domain values; dates in years 1..9999 (leap days, month ends, sub-second parts, zones, the first and the last instant) x amounts in [-10^6,10^6] x units ms,s,min,h,d,w, with a fixed block of +-10^6 of every unit, day/week amounts around and far beyond 292.47 years and millisecond amounts that borrow across a second; RFC 3339 renderings. One evaluation = one round trip / double application through a compiled query. Non-trivial = the first function changed its input (encoders, case, trim), the split produced >= 2 pieces, the amount is non-zero, the JSON value is not a scalar, the instant has a sub-second part or a zone; distinct = distinct (pair, input) texts"
 	r := newRunner()
 	distinct := map[string]struct{}{}
 	count := func(nontrivial bool, key string) {
@@ -485,16 +527,23 @@ func runC17(out, tier string, seed int64) {
 
 	// ---- dates
 	spi := specialInstants()
+	fixed := fixedDates()
+	nDates += len(fixed)
 	dates := make([]dateCase, 0, nDates)
-	for i := 0; i < nDates; i++ {
+	for i0 := 0; i0 < nDates; i0++ {
 		var d dateCase
-		if i < len(spi)*2 {
+		i := i0 - len(fixed)
+		if i < 0 {
+			d.sec, d.ns = fixed[i0].sec, fixed[i0].ns
+		} else if i < len(spi)*2 {
 			d.sec, d.ns = spi[i%len(spi)][0], nsecPool[rng.Intn(len(nsecPool))]
 		} else {
 			d.sec, d.ns = randInstant(rng, spi)
 		}
 		d.off = zonePool[rng.Intn(len(zonePool))]
-		if i < len(amountPool)*6 {
+		if i < 0 {
+			d.n, d.unit = fixed[i0].n, fixed[i0].unit
+		} else if i < len(amountPool)*6 {
 			d.n, d.unit = amountPool[i%len(amountPool)], (i/len(amountPool))%6
 		} else {
 			d.unit = rng.Intn(6)
@@ -510,10 +559,13 @@ func runC17(out, tier string, seed int64) {
 		t := mkTime(d.sec, d.ns, d.off)
 		tk, _, fin := r.run("LET a = TAKE(DATE_ADD(@d, @n, @u)) LET b = TAKE(DATE_SUBTRACT(a, @n, @u)) LET x = TAKE(DATE_DIFF(@d, a, @u)) RETURN 1",
 			map[string]interface{}{"d": t, "n": d.n, "u": d.uname})
-		okAS, okDiff := false, false
+		okAS, okDiff, okAbs := false, false, false
 		if len(tk) >= 1 && tk[0].Type() == types.DateTime {
 			a := tk[0].(values.DateTime).Time
 			d.addSec, d.addNs, d.haveAdd = a.Unix(), int64(a.Nanosecond()), true
+			if d.n != 0 && d.addNs != d.ns && (d.n > 0) == (d.addNs < d.ns) {
+				m.Count("date-diff:borrow-across-second")
+			}
 		}
 		if fin && len(tk) == 3 {
 			if tk[1].Type() == types.DateTime {
@@ -522,9 +574,10 @@ func runC17(out, tier string, seed int64) {
 			d.diff = tk[2].String()
 			if tk[2].Type() == types.Int {
 				okDiff = int64(tk[2].(values.Int)) == d.n
+				okAbs = int64(tk[2].(values.Int)) == d.n || int64(tk[2].(values.Int)) == -d.n
 			}
 		}
-		d.obs = bitsChar(okAS, okDiff)
+		d.obs = bitsChar(okAS, okDiff, okAbs)
 		dates = append(dates, d)
 		key := fmt.Sprintf("%d.%d|%d|%d", d.sec, d.ns, d.n, d.unit)
 		count(d.n != 0, "addsub|"+key)
@@ -538,16 +591,28 @@ func runC17(out, tier string, seed int64) {
 		if !okDiff {
 			m.Count("impl-predicate-false:date-diff")
 		}
+		beyond := math.Abs(float64(d.n))*float64(unitNs[d.unit]) > 9.223372036854775807e18
 		switch {
+		case d.n < 0 && beyond:
+			m.Count("amount:negative-beyond-292y")
 		case d.n < 0:
 			m.Count("amount:negative")
 		case d.n == 0:
 			m.Count("amount:zero")
+		case beyond:
+			m.Count("amount:positive-beyond-292y")
 		default:
-			if float64(d.n)*float64(unitNs[d.unit]) > 9.223372036854775807e18 {
-				m.Count("amount:positive-beyond-292y")
-			} else {
-				m.Count("amount:positive")
+			m.Count("amount:positive")
+		}
+		if d.n >= 100000 || d.n <= -100000 {
+			m.Count("amount:|n|>=10^5:" + unitNames[d.unit][0])
+		}
+		if y := time.Unix(d.sec, 0).UTC().Year(); y <= 1 || y >= 9999 {
+			m.Count("instant:year-1-or-9999")
+		}
+		if d.haveAdd {
+			if y := time.Unix(d.addSec, 0).UTC().Year(); y >= 1 && y <= 9999 && beyond {
+				m.Count("date-diff:both-instants-in-1..9999-beyond-292y")
 			}
 		}
 	}
@@ -724,10 +789,10 @@ func runC17(out, tier string, seed int64) {
 			"to_base64": o.enc[0], "encode_uri_component": o.enc[1], "escape_html": o.enc[2], "upper": fmt.Sprintf("%q", o.enc[3]),
 			"predicates(base64,uri,html,upper,lower)": fmt.Sprintf("%05b", o.single-48), "split_row": o.splitRow})
 	}
-	for _, i := range []int{0, len(dates) / 2} {
+	for _, i := range []int{0, 72, len(dates) / 2} {
 		d := dates[i]
 		m.Samples = append(m.Samples, map[string]interface{}{"date": mkTime(d.sec, d.ns, d.off).Format(time.RFC3339Nano), "amount": d.n, "unit": d.uname,
-			"date_add": time.Unix(d.addSec, d.addNs).UTC().Format(time.RFC3339Nano), "date_diff": d.diff, "predicates(addsub,diff)": fmt.Sprintf("%02b", d.obs-48)})
+			"date_add": time.Unix(d.addSec, d.addNs).UTC().Format(time.RFC3339Nano), "date_diff": d.diff, "predicates(addsub,diff,|diff|)": fmt.Sprintf("%03b", d.obs-48)})
 	}
 	m.Samples = append(m.Samples, map[string]interface{}{"rfc3339_json_rendering": rfcs[len(rfcs)/2].text, "rfc3339_date_format": rfcs[len(rfcs)/2].text2,
 		"json_stringify": jsonText[len(jsonText)/2]})
